@@ -157,7 +157,7 @@ def conclude(prop, tier, seed, comps, metas, results, infra, t_start, verbose=Fa
     suff_only = []
     if violations:
         import replayers
-        rdir = os.path.join(ROOT, 'replay', prop)
+        rdir = os.path.join(os.environ.get('VERIF_OUT_DIR') or ROOT, 'replay', prop)
         os.makedirs(rdir, exist_ok=True)
         for c, g, r, o in violations:
             fname = re.sub(r'[^A-Za-z0-9_.-]+', '_', '%s__%s' % (g.name, ob_key(o)))[:150] + '.json'
@@ -244,5 +244,8 @@ def write_evidence(prop, tier, seed, n_ob, n_ok, n_b, n_bok, groups_ev, samples,
     }
     ev = {'property_id': prop, 'tier': tier, 'seed': seed, 'level': level, 'coverage': cov,
           'assumptions': assumes + extra_assumptions, 'wall_s': round(wall, 2), 'violations': len(violations)}
-    os.makedirs(os.path.join(ROOT, 'evidence'), exist_ok=True)
-    json.dump(ev, open(os.path.join(ROOT, 'evidence', prop + '.json'), 'w'), indent=1)
+    # VERIF_OUT_DIR redirects evidence and replay files (used only by the seeded-change regression, which checks scratch
+    # copies of the repository and must not overwrite the evidence of the real tree)
+    edir = os.path.join(os.environ.get('VERIF_OUT_DIR') or ROOT, 'evidence')
+    os.makedirs(edir, exist_ok=True)
+    json.dump(ev, open(os.path.join(edir, prop + '.json'), 'w'), indent=1)
